@@ -787,6 +787,7 @@ func c17(c *Ctx) {
 		fSQ := c.field(tr, "http2Client", "streamQuota")
 		fWS := c.field(tr, "http2Client", "waitingStreams")
 		fAv := c.field(tr, "http2Client", "streamsQuotaAvailable")
+		ww := wakeWrappers(c, tr, fAv)
 		isWake := func(in ssa.Instruction) bool {
 			switch x := in.(type) {
 			case *ssa.Select:
@@ -796,7 +797,10 @@ func c17(c *Ctx) {
 					}
 				}
 			case *ssa.Call:
-				return BuiltinCall("close")(&x.Call) && FieldLoad(fAv)(x.Call.Args[0])
+				if isWakeCall(ww, in) {
+					return true
+				}
+				return BuiltinCall("close")(&x.Call) && len(x.Call.Args) > 0 && FieldLoad(fAv)(x.Call.Args[0])
 			}
 			return false
 		}
